@@ -11,18 +11,20 @@ pub mod c05;
 pub mod c06;
 pub mod c07;
 pub mod effects;
+pub mod c08;
 pub mod c09;
 pub mod c10;
 pub mod c11;
 pub mod c12;
 pub mod c14;
 pub mod c15;
+pub mod c16;
 pub mod c17;
 pub mod c18;
 pub mod tokens;
 
 pub fn all() -> Vec<&'static dyn Prop> {
-    vec![&c01::C01, &c02::C02, &c03::C03, &c04::C04, &c05::C05, &c06::C06, &c07::C07, &c09::C09, &c10::C10, &c11::C11, &c12::C12, &c14::C14, &c15::C15, &c17::C17, &c18::C18]
+    vec![&c01::C01, &c02::C02, &c03::C03, &c04::C04, &c05::C05, &c06::C06, &c07::C07, &c08::C08, &c09::C09, &c10::C10, &c11::C11, &c12::C12, &c14::C14, &c15::C15, &c16::C16, &c17::C17, &c18::C18]
 }
 
 pub fn find(id: &str) -> Option<&'static dyn Prop> {
